@@ -62,6 +62,7 @@ Inductive wop :=
 | OpPut (name data : bytes)        (* the upload server stores (or re-stores) a report *)
 | OpDel (name : bytes)             (* a stored report is withdrawn *)
 | OpStray (name : bytes)           (* an unlistable directory appears in the upload bucket *)
+| OpRelocate (which : N)           (* a bucket directory is moved away and replaced by a symbolic link to it *)
 | OpMerge (date : bytes)           (* /merge/?date= *)
 | OpChart (start end_ : Z).        (* /chart/?start=&end= *)
 
@@ -110,6 +111,7 @@ Section Store.
     | OpPut name data => (mkWS (b_put name data (ws_upload st)) (ws_stray st) (ws_merged st) (ws_chart st), RespNone)
     | OpDel name => (mkWS (b_del name (ws_upload st)) (ws_stray st) (ws_merged st) (ws_chart st), RespNone)
     | OpStray name => (mkWS (ws_upload st) (name :: ws_stray st) (ws_merged st) (ws_chart st), RespNone)
+    | OpRelocate _ => (st, RespNone)    (* object names resolve through the link: writing, reading AND listing *)
     | OpMerge date => do_merge st date
     | OpChart s e => do_chart st s e
     end.
